@@ -65,7 +65,8 @@ def wave_run(c, delays, sims_alloc, i, t, f, caps, strip=False, reuse=False, cud
     if multi_seed is not None:
         wc.overwrite_inputs(ws, random.Random(multi_seed), p=0.6)
     if mode is not None:
-        ws.simctl_int[1] = mode
+        if np.ndim(mode) == 0: ws.simctl_int[1] = mode
+        else: ws.simctl_int[1, :len(mode)] = mode            # selection mode per lane
         if simctl0 is not None: ws.simctl_int[0, :len(simctl0)] = simctl0
     with common.quiet():
         ws.c_prop(sims=k, seed=seed); ws.c_to_s()
@@ -251,6 +252,15 @@ def eval_case(case):
             r = wave_run(c, delays[dd], sims, i, t, f, case['caps'], case['strip'], case['reuse'])
             if not np.array_equal(fields(g1)[:, :, lane], fields(r)[:, :, lane]):
                 return False, {'clause': cl, 'mode': 1, 'lane': lane, 'dataset': dd}, {'equal': 'simulation with that data set alone'}
+        # the selection mode is a per-lane setting: lanes in mode 0 use data set `seed`, lanes in mode 1 their own choice
+        modes = [srng.randrange(2) for _ in range(sims)]
+        if srng.random() < 0.5: modes[0] = 0
+        g2 = wave_run(c, delays, sims, i, t, f, case['caps'], case['strip'], case['reuse'], mode=np.array(modes, dtype=np.int32), simctl0=sel, seed=d)
+        for lane, (mm, dd) in enumerate(zip(modes, sel)):
+            want = d if mm == 0 else dd
+            r = wave_run(c, delays[want], sims, i, t, f, case['caps'], case['strip'], case['reuse'])
+            if not np.array_equal(fields(g2)[:, :, lane], fields(r)[:, :, lane]):
+                return False, {'clause': cl, 'modes': modes, 'lane': lane, 'dataset': want}, {'equal': 'simulation with that data set alone'}
         return True, None, None
     d0 = delays
     ref = wave_run(c, d0, sims, i, t, f, case['caps'])
